@@ -37,7 +37,10 @@ func (f *wfFactory) exec(logger log.Logger) (workflow.Executor, error) {
 
 // newRegistry builds the step registry over the scripted deployer (plugin + foreach providers).
 func newRegistry() (step.Registry, *config.Config, error) {
-	cfg := &config.Config{}
+	// custom logging of produced outputs is switched on so that this part of the run loop is exercised
+	cfg := &config.Config{LoggedOutputConfigs: map[string]*config.StepOutputLogConfig{
+		"success": {LogLevel: log.LevelDebug}, "error": {LogLevel: log.LevelDebug}, "cancelled_early": {LogLevel: log.LevelDebug},
+	}}
 	pp, err := plugin.New(quietLogger, env.NewRegistry(), map[string]any{
 		"builtin": map[string]any{"deployer_name": "scripted"},
 	})
